@@ -1,4 +1,5 @@
 import RallyModel.JsonFast
+import RallyModel.JsonFastMore
 import Drivers.Util
 open Lean DUtil
 
@@ -136,7 +137,10 @@ def statsJ (b : BulkStats) : Lean.Json :=
     ("success", .bool b.success),
     ("success_count", match b.successCount with | some i => toJson i | none => .null),
     ("error_count", toJson b.errorCount),
-    ("details", arr (b.details.map fun d => arr [toJson d.1, match d.2 with | some r => enc r | none => .null]))]
+    ("details", arr (b.details.map fun d => arr [toJson d.1, match d.2 with | some r => enc r | none => .null])),
+    ("description", match b.description with | some t => enc t | none => .null),
+    ("shown", toJson ((descOf b.details).shown.length)),
+    ("truncated", .bool (descOf b.details).truncated.isSome)]
 
 def exceptJ {α : Type} (f : α → Lean.Json) : Except Err α → Lean.Json
   | .ok v => Lean.Json.mkObj [("ok", f v)]
@@ -313,6 +317,25 @@ def handle (op : String) (a : Lean.Json) : Except String Lean.Json := do
     let left ← getLeftAfter a
     let r := caQueryOn left { pit := pit, path := path, total := total, resps := ds }
     return ok (Lean.Json.mkObj [("res", exceptJ accJ r.2.1), ("first", boxPvalJ r.2.2), ("left_after", boxPvalJ r.1)]) [exceptTag r.2.1]
+  | "sa_concurrent" =>
+    -- searches in flight together on one Query object, run under the schedule the harness observed
+    let st ← styleOf a
+    let cs ← getArr a "calls"
+    let calls ← cs.mapM fun c => do
+      let ds ← getDocs c "docs"
+      let pit ← getBool c "pit"
+      let size ← getNat c "size"
+      let total ← getNat c "pages"
+      pure ({ pit := pit, size := size, total := total, resps := ds } : SaQCall)
+    let sj ← getArr a "sched"
+    let sched ← sj.mapM fun x => match x.getNat? with
+      | .ok n => pure n
+      | .error e => throw e
+    let fin := saSchedule st sched (calls.map saStart)
+    return ok (arr (fin.map fun v => match v.res with
+      | some r => exceptJ accJ r
+      | none => Lean.Json.mkObj [("pending", toJson v.page)]))
+      (fin.map fun v => match v.res with | some r => exceptTag r | none => "pending")
   | "scroll_query" =>
     let ds ← getDocs a "docs"
     let size ← getOptNat a "size"
